@@ -113,6 +113,16 @@ func Run(c *core.Ctx, replay string) (*core.Result, error) {
 		for k := 0; k < n; k++ {
 			cases = append(cases, Case{Case: k + 1, Regs: dims.RandomFile(rng, 1+rng.Intn(6), false), Prefix: prefixes[rng.Intn(len(prefixes))]})
 		}
+		// two handlers sharing their short name (the imported TopLevel and a local one), in both orders
+		mk := func(handler, input, ret string, query []string) routes.Reg {
+			return routes.Reg{Verb: "POST", Path: []string{"lit:/" + handler}, Handler: handler, Input: input, Query: query, Form: routes.Form{Values: []string{}}, Ret: ret}
+		}
+		for _, regs := range [][]routes.Reg{
+			{mk("importedfunc", "none", "none", []string{}), mk("localtwin", "struct", "json", []string{"plain:q"})},
+			{mk("localtwin", "slice", "pretty", []string{"int64:n"}), mk("importedfunc", "none", "none", []string{}), mk("importedmethod", "none", "none", []string{})},
+		} {
+			cases = append(cases, Case{Case: len(cases) + 1, Regs: regs, Prefix: ""})
+		}
 	}
 	var out workIn
 	const chunk = 150
